@@ -75,6 +75,9 @@ def build(u):
             u.take_fn(hc, "empty_body", external_body=True, contract="        ensures body_is_empty(r),\n")
         with u.mod("helpers", uses="use crate::common::result::Result;"):
             u.take_fn(hp, "compute_signature", external_body=True, contract="        ensures r matches Ok(s) ==> s@ == mac_spec(hex_encoded_key@, input_to_sign@),\n")
+    with u.mod("provision"):
+        with u.mod("provision_query"):
+            u.take(prov, "provision_query::PROVISION_URL_PATH", "const")
     with u.mod("proxy_agent_shared"):
         with u.mod("misc_helpers"):
             u.take_fn(mh, "get_date_time_rfc1123_string", external_body=True, contract="        ensures is_current_date(r@),\n")
@@ -175,7 +178,7 @@ def build(u):
                  fwd_ok(request, orig),        // @C05+C14+C15.HttpConnectionContext_send_request.host_receives_client_request_with_proxy_headers
 """)
 
-        with u.mod("proxy_server", uses="use crate::common::{constants, error::{Error, HyperErrorType}, helpers, hyper_client, logger, result::Result};\nuse crate::proxy::proxy_connection::{ConnectionLogger, HttpConnectionContext, TcpConnectionContext};\nuse crate::proxy::{proxy_authorizer, proxy_authorizer::AuthorizeResult, proxy_summary::ProxySummary, Claims};\nuse crate::shared_state::agent_status_wrapper::AgentStatusSharedState;\nuse crate::shared_state::key_keeper_wrapper::KeyKeeperSharedState;\nuse crate::shared_state::provision_wrapper::ProvisionSharedState;\nuse crate::shared_state::proxy_server_wrapper::ProxyServerSharedState;\nuse crate::shared_state::redirector_wrapper::RedirectorSharedState;\nuse crate::shared_state::telemetry_wrapper::TelemetrySharedState;\nuse http_body_util::Full;\nuse http_body_util::{combinators::BoxBody, BodyExt};\nuse hyper::body::{Bytes, Frame, Incoming};\nuse hyper::header::{HeaderName, HeaderValue};\nuse hyper::StatusCode;\nuse hyper::{Request, Response};\nuse log::Level as LoggerLevel;\nuse crate::proxy_agent_shared::misc_helpers;\nuse crate::proxy_agent_shared::telemetry::event_logger;\nuse tokio_util::sync::CancellationToken;\nuse tower_http::body::Limited;"):
+        with u.mod("proxy_server", uses="use crate::provision;\nuse crate::common::{constants, error::{Error, HyperErrorType}, helpers, hyper_client, logger, result::Result};\nuse crate::proxy::proxy_connection::{ConnectionLogger, HttpConnectionContext, TcpConnectionContext};\nuse crate::proxy::{proxy_authorizer, proxy_authorizer::AuthorizeResult, proxy_summary::ProxySummary, Claims};\nuse crate::shared_state::agent_status_wrapper::AgentStatusSharedState;\nuse crate::shared_state::key_keeper_wrapper::KeyKeeperSharedState;\nuse crate::shared_state::provision_wrapper::ProvisionSharedState;\nuse crate::shared_state::proxy_server_wrapper::ProxyServerSharedState;\nuse crate::shared_state::redirector_wrapper::RedirectorSharedState;\nuse crate::shared_state::telemetry_wrapper::TelemetrySharedState;\nuse http_body_util::Full;\nuse http_body_util::{combinators::BoxBody, BodyExt};\nuse hyper::body::{Bytes, Frame, Incoming};\nuse hyper::header::{HeaderName, HeaderValue};\nuse hyper::StatusCode;\nuse hyper::{Request, Response};\nuse log::Level as LoggerLevel;\nuse crate::proxy_agent_shared::misc_helpers;\nuse crate::proxy_agent_shared::telemetry::event_logger;\nuse tokio_util::sync::CancellationToken;\nuse tower_http::body::Limited;"):
             u.take(ps, "ProxyServer", "struct", keep_derive=("Clone",))
             with u.impl_(ps, "ProxyServer"):
                 u.take_fn(ps, "ProxyServer::empty_response", e9=status_e9(), contract="""
